@@ -367,9 +367,9 @@ Strategy(r) ==
     [] r.c = "json+text" ->
          \* one unique resolved type => no Union => the Content-Type switch is never emitted
          IF TypeOf(r.sh) = "str" THEN [k |-> "type", ty |-> "str"] ELSE [k |-> "switch", ty |-> TypeOf(r.sh)]
-    \* (repair 27387a3, _write_strategy_based_return: return type exactly `str` AND every declared content type text/* =>
-    \* `return response.text`; a `$ref` to a string alias resolves to the ALIAS name and still takes the cast path)
-    [] r.c = "text" /\ TypeOf(r.sh) = "str" -> [k |-> "text", ty |-> "str"]
+    \* (repairs 27387a3 + ce4271b, _write_strategy_based_return: a plain string schema - inline, or a `$ref` to a string
+    \* alias without enum / format - AND every declared content type text/* => `return response.text`)
+    [] r.c = "text" /\ TypeOf(r.sh) \in {"str", "Label"} -> [k |-> "text", ty |-> TypeOf(r.sh)]
     [] OTHER -> [k |-> "type", ty |-> TypeOf(r.sh)]
 
 \* what the signature's annotation admits
